@@ -142,6 +142,9 @@ class Rec:
             self.next_state_now(ref)
         elif act[0] == "done":
             self.done()
+        elif act[0] == "dnsn":
+            self.done()
+            self.next_state_now(ref)
         elif act[0] == "dns":
             # done() and then still a next_state() in the same invocation (a forgotten return): only
             # generated for autonomous machines, where the statement says what the next on_enable() does
@@ -255,6 +258,7 @@ class SpecSM:
         self.after_fallback = False
         self.tainted_reenable = False
         self.tie_unknown = False
+        self.left_selected = None  # name a state wrote into current_state after its own done() (dns / dnsn)
         # statistics for non-triviality
         self.stat = {}
 
@@ -287,6 +291,7 @@ class SpecSM:
 
     def op_done(self):
         """done()/on_disable() from outside a state"""
+        self.left_selected = None
         if self.cur == self.sp.default and self.cur is not None:
             # was the default state the running one?  its next initial_call is unspecified
             self.has_run[self.sp.default] = None
@@ -305,6 +310,7 @@ class SpecSM:
             self.cur = None
             self.executing = False
             self.requested = False
+            self.left_selected = None
             self.latch = True
 
     # ---- one iteration ---------------------------------------------------
@@ -431,6 +437,16 @@ class SpecSM:
                 self.bump("act:next_state_now")
                 self._enter(act[1])
                 self.execute(now, now_d, ev, depth + 1)
+            elif act and act[0] == "dnsn":
+                self.bump("act:done-then-next_state_now")
+                if not ev.take_done():
+                    self.miss("done-missing@in-state", ("C04", "C13"), "in-state done() left no marker")
+                self.cur = None
+                self.executing = False
+                self.requested = False
+                self._enter(act[1])
+                self.left_selected = act[1]
+                self.execute(now, now_d, ev, depth + 1)  # stopped and nothing requested: runs nothing (or the default state)
             elif act and act[0] == "dns":
                 self.bump("act:done-then-next_state")
                 if not ev.take_done():
@@ -439,6 +455,7 @@ class SpecSM:
                 self.executing = False
                 self.requested = False
                 self._enter(act[1])  # a selection left behind on a stopped machine
+                self.left_selected = act[1]
             elif act and act[0] == "done":
                 self.bump("act:done")
                 if not ev.take_done():
@@ -669,11 +686,11 @@ class Driver:
                 pending = model.requested  # engage() called, not executed yet: unspecified
                 # a state that called done() and then still next_state(x) leaves a selection behind on a stopped
                 # machine; current_state then names x, which nothing in the statements forbids
-                dangling = model.cur is not None and model.cur != spec.default
+                dangling = (model.cur is not None and model.cur != spec.default) or model.left_selected is not None
                 if not pending:
                     if ie is not False:
                         model.miss(f"flags/is_executing{lab_}", {"C04", "C13"}, f"{where}: is_executing={ie!r} although the machine is stopped")
-                    if csa != "" and not (dangling and csa == model.cur):
+                    if csa != "" and not dangling:
                         model.miss(f"flags/current_state{lab_}", {"C04", "C13"}, f"{where}: current_state={csa!r} although the machine is stopped")
 
         self.ctx = None
@@ -723,6 +740,15 @@ class Driver:
                             # consumed more script entries: re-align the in-state scripts with the machine under test
                             twin._scripts = {k: [list(a) for a in v] for k, v in m._scripts.items()}
                             tw_running = True
+                    elif k == "gap":
+                        # time passes between the robot program's calls of one loop iteration (engage() early in
+                        # teleopPeriodic, execute() later): the machine's clock starts at its first execute()
+                        simenv.advance(op[1])
+                        now = simenv.now_us()
+                        now_d = simenv.now_s()
+                        row["now"] = now
+                        model.bump("gap-between-ops")
+                        continue
                     elif k == "ns":
                         if not model.executing or spec.auto:
                             model.bump("skipped-op")
@@ -752,7 +778,7 @@ class Driver:
                             if tot <= 0:
                                 model.bump("skipped-op")
                                 continue
-                            val = (now + tot) * 1e-6 - now_d
+                            val = (simenv.now_us() + tot) * 1e-6 - simenv.now_s()
                             us = tot
                             n = spec.first if spec.timed(spec.first) else n
                             via = "nt"
@@ -1067,6 +1093,8 @@ def decode_sm_case(code, profile):
             pre.insert(0, ["on_enable"])
         elif extra == 36:
             pre.append(["ns", names[tgt % len(names)]])
+        elif extra in (32, 33) and pre:
+            pre.append(["gap", [1, 5_000, 15_000, 20_000, 100_000][pos]])
         elif extra in (34, 35) and timed:
             us = DUR_POOL[dpool] if dpool < len(DUR_POOL) else max(1, dfree)
             pre.insert(0, ["dur", timed[tgt % len(timed)], us, ["nt", "attr", "nt", "exact"][via]])
@@ -1078,6 +1106,8 @@ def decode_sm_case(code, profile):
         case["objrefs"] = True
     if t0_c in (1, 3):
         case["verbose"] = True  # the logging branches of execute()/done() run as well
+    if t0_c in (4, 5) and "over" not in case:
+        case["sibling"] = True  # a second instance of the same class is driven on the side
     return case
 
 
@@ -1104,7 +1134,7 @@ def decode_auto_case(code):
     if t0_c == 3:
         for k, sd in enumerate(case["states"]):
             if sd["kind"] != "default":
-                sd["script"] = [(["dns", regular[(k + j) % len(regular)]] if a == ["done"] else a) for j, a in enumerate(sd["script"])]
+                sd["script"] = [([["dns", "dnsn"][(k + j) % 2], regular[(k + j) % len(regular)]] if a == ["done"] else a) for j, a in enumerate(sd["script"])]
     timed = [sd["n"] for sd in case["states"] if sd["kind"] == "timed"]
     case["auto"] = True
     hist = []
